@@ -107,7 +107,7 @@ func c08Curve[P curves.Point[P, F, S], F algebra.FiniteFieldElement[F], S algebr
 			rZ := func(z Z) string { return scalarHex(z.Z) }
 			line, fl, el := maurerLines(prefix, rX, rA, rZ)
 			cs := &sigCase[X, *schnorr.Witness[S], A, *schnorr.State[S], Z]{
-				tag: "schnorr." + cv, proto: proto, fischlinQuick: true,
+				tag: "schnorr." + cv, proto: proto, fischlinQuick: true, advFull: true,
 				x: schnorr.NewStatement(g.ScalarOp(w)), w: schnorr.NewWitness(w),
 				x2: schnorr.NewStatement(g.ScalarOp(w2)), w2: schnorr.NewWitness(w2),
 				line: line, fischlinLine: fl, extractLine: el,
@@ -118,6 +118,19 @@ func c08Curve[P curves.Point[P, F, S], F algebra.FiniteFieldElement[F], S algebr
 					}
 					return scalarHex(wit.W), proto.ValidateStatement(x, wit) == nil, nil
 				},
+			}
+			// cross-protocol replay: the same bytes presented to Schnorr over another base, and to batch
+			// Schnorr (k = 2, same base) whose proofs have the same encoding
+			{
+				g2 := g.ScalarOp(rs())
+				if proto2, err := schnorr.NewProtocol(g2, r); err == nil {
+					line2, _, _ := maurerLines(fmt.Sprintf("schnorr %s %s", cv, pointStr(g2)), rX, rA, rZ)
+					cs.foreign = append(cs.foreign, fsForeign("schnorr-other-base", proto2, cs.x, line2))
+				}
+				if bproto, err := batch_schnorr.NewProtocol(2, curve, r); err == nil {
+					bx := batch_schnorr.NewStatement(g, cs.x.X, cs.x2.X)
+					cs.foreign = append(cs.foreign, fsForeign("batch-schnorr", bproto, bx, batchLine[P, F, S](cv, 2)))
+				}
 			}
 			runSigma(c, r, cs)
 
@@ -155,17 +168,42 @@ func c08Curve[P curves.Point[P, F, S], F algebra.FiniteFieldElement[F], S algebr
 			type Z = *batch_schnorr.Response[S]
 			cs := &sigCase[X, *batch_schnorr.Witness[S], A, *batch_schnorr.State[S], Z]{
 				tag: "batch." + cv, proto: proto, x: x, w: w, x2: x2, w2: w2, fischlinQuick: cv == "k256",
-				line: func(op string, x X, a A, e []byte, z Z, extra string) string {
-					switch op {
-					case "verify":
-						return fmt.Sprintf("batch %s %s %s %s %s %s", cv, pointStr(x.Gen), pointsStr(x.Xs), pointStr(a.A), eHex(e), scalarHex(z.Z))
-					case "fs":
-						return fmt.Sprintf("batchfs %s %s %s %s %s %s %s", cv, pointStr(x.Gen), pointsStr(x.Xs), pointStr(a.A), hexBytes(e), extra, scalarHex(z.Z))
-					case "sim":
-						return fmt.Sprintf("batchsim %s %s %s %s %s %s", cv, pointStr(x.Gen), pointsStr(x.Xs), eHex(e), pointStr(a.A), scalarHex(z.Z))
+				line: batchLine[P, F, S](cv, k),
+				xVariants: func(x X) []namedX[X] {
+					var out []namedX[X]
+					for i := range x.Xs {
+						xs := append([]P{}, x.Xs...)
+						xs[i] = xs[i].Op(x.Gen)
+						out = append(out, namedX[X]{"component", batch_schnorr.NewStatement(x.Gen, xs...)})
 					}
-					return ""
+					xs := append([]P{}, x.Xs...)
+					xs[0], xs[1] = xs[1], xs[0]
+					out = append(out, namedX[X]{"order", batch_schnorr.NewStatement(x.Gen, xs...)})
+					out = append(out, namedX[X]{"component", batch_schnorr.NewStatement(x.Gen.Op(x.Gen), x.Xs...)})
+					return out
 				},
+			}
+			// the protocol configured for k-1 / k+1 statements (its name does not depend on k)
+			for _, dk := range []int{-1, 1} {
+				if k+dk < 2 {
+					continue
+				}
+				kind := "fewer"
+				if dk > 0 {
+					kind = "more"
+				}
+				if rp, err := batch_schnorr.NewProtocol(k+dk, curve, r); err == nil {
+					xs := append([]P{}, x.Xs...)
+					ws := append([]S{}, w.Ws...)
+					if dk < 0 {
+						xs, ws = xs[:k-1], ws[:k-1]
+					} else {
+						wn := rs()
+						xs, ws = append(xs, g.ScalarOp(wn)), append(ws, wn)
+					}
+					cs.resized = append(cs.resized, resized[X, *batch_schnorr.Witness[S], A, *batch_schnorr.State[S], Z]{
+						kind: kind, proto: rp, x: batch_schnorr.NewStatement(g, xs...), w: batch_schnorr.NewWitness(ws...)})
+				}
 			}
 			runSigma(c, r, cs)
 		}
@@ -282,6 +320,21 @@ func c08Curve[P curves.Point[P, F, S], F algebra.FiniteFieldElement[F], S algebr
 			cs := &sigCase[X, *elcomop.Witness[P, S], A, *elcomop.State[P, S], Z]{
 				tag: "elcomop." + cv, proto: proto, x: x, w: w, x2: x2, w2: w2, fischlinQuick: cv == "k256" && c.Seed%2 == 1,
 				line: line, fischlinLine: fl, extractLine: el,
+				xVariants: func(x X) []namedX[X] {
+					var out []namedX[X]
+					comps := x.X.Components()
+					for i := range comps {
+						cc := append([]P{}, comps...)
+						cc[i] = cc[i].Op(curve.Generator())
+						if st := mkElcomopStatement[P, F, S](cc[0], cc[1]); st != nil {
+							out = append(out, namedX[X]{"component", st})
+						}
+					}
+					if st := mkElcomopStatement[P, F, S](comps[1], comps[0]); st != nil {
+						out = append(out, namedX[X]{"order", st})
+					}
+					return out
+				},
 				extract: func(x X, a A, es []sigma.ChallengeBytes, zs []Z) (string, bool, error) {
 					wit, err := proto.Extract(x, a, es, zs)
 					if err != nil {
@@ -316,6 +369,16 @@ func c08Curve[P curves.Point[P, F, S], F algebra.FiniteFieldElement[F], S algebr
 			eprefix := fmt.Sprintf("%s %s,%s,%s", cv, pointStr(pk.Generator()), pointStr(pk.Value()), pointStr(h))
 			ecs := &sigCase[*elog.Statement[P, S], *elog.Witness[P, S], *elog.Commitment[P, S], *elog.State[P, S], *elog.Response[P, S]]{
 				tag: "elog." + cv, proto: eproto, x: ex, w: ew, x2: ex2, w2: ew2, fischlinQuick: cv == "ed25519" && c.Seed%2 == 0,
+				xVariants: func(x *elog.Statement[P, S]) []namedX[*elog.Statement[P, S]] {
+					var out []namedX[*elog.Statement[P, S]]
+					if st, err := elog.NewStatement(x.X0, ex2.X1); err == nil {
+						out = append(out, namedX[*elog.Statement[P, S]]{"component", st})
+					}
+					if st, err := elog.NewStatement(ex2.X0, x.X1); err == nil {
+						out = append(out, namedX[*elog.Statement[P, S]]{"component", st})
+					}
+					return out
+				},
 				line: func(op string, x *elog.Statement[P, S], a *elog.Commitment[P, S], e []byte, z *elog.Response[P, S], extra string) string {
 					body := fmt.Sprintf("elog %s %s %s %s %s %s %s %s", eprefix, rX(x.X0), pointStr(x.X1.X), rA(a.A0), pointStr(a.A1.A), eHex(e), rZ(z.Z0), scalarHex(z.Z1.Z))
 					switch op {
@@ -359,15 +422,62 @@ func c08And[P curves.Point[P, F, S], F algebra.FiniteFieldElement[F], S algebra.
 	cs := &sigCase[X, sigand.Witness[*schnorr.Witness[S]], A, sigand.State[*schnorr.State[S]], Z]{
 		tag: fmt.Sprintf("and.%s", cv), proto: proto, x: x, w: w, x2: x2, w2: w2, heavy: true, fischlinQuick: cv == "k256" && c.Seed%3 == 0,
 		line: func(op string, x X, a A, e []byte, z Z, extra string) string {
-			body := fmt.Sprintf("and %s %s %s %s %s", prefix, joinSemi(mapStr(x, rX)), joinSemi(mapStr(a, rA)), eHex(e), joinSemi(mapStr(z, rZ)))
+			for i := range x {
+				if x[i] == nil {
+					return ""
+				}
+			}
+			for i := range a {
+				if a[i] == nil {
+					return ""
+				}
+			}
+			for i := range z {
+				if z[i] == nil {
+					return ""
+				}
+			}
+			body := fmt.Sprintf("and %s %d %s %s %s %s", prefix, n, joinSemi(mapStr(x, rX)), joinSemi(mapStr(a, rA)), eHex(e), joinSemi(mapStr(z, rZ)))
 			switch op {
-			case "verify", "sim":
+			case "verify", "sim", "zk":
 				return body
 			case "fs":
 				return body + " " + hexBytes(e) + " " + extra
 			}
 			return ""
 		},
+		xVariants: func(x X) []namedX[X] {
+			var out []namedX[X]
+			for i := range x {
+				v := append(X{}, x...)
+				v[i] = x2[i]
+				out = append(out, namedX[X]{"component", v})
+			}
+			v := append(X{}, x...)
+			v[0], v[1] = v[1], v[0]
+			out = append(out, namedX[X]{"order", v})
+			return out
+		},
+	}
+	// the same composition (same name) over n-1 / n+1 branches
+	for _, dn := range []int{-1, 1} {
+		kind := "fewer"
+		if dn > 0 {
+			kind = "more"
+		}
+		rp, err := sigand.ComposeNamed(proto.Name(), base, uint(n+dn))
+		if err != nil {
+			continue
+		}
+		xs := append(X{}, x...)
+		ws := append(sigand.Witness[*schnorr.Witness[S]]{}, w...)
+		if dn < 0 {
+			xs, ws = xs[:n-1], ws[:n-1]
+		} else {
+			wn := rs()
+			xs, ws = append(xs, schnorr.NewStatement(g.ScalarOp(wn))), append(ws, schnorr.NewWitness(wn))
+		}
+		cs.resized = append(cs.resized, resized[X, sigand.Witness[*schnorr.Witness[S]], A, sigand.State[*schnorr.State[S]], Z]{kind: kind, proto: rp, x: xs, w: ws})
 	}
 	runSigma(c, r, cs)
 }
@@ -411,17 +521,101 @@ func c08Or[P curves.Point[P, F, S], F algebra.FiniteFieldElement[F], S algebra.P
 					return "" // malformed response: decided by the Go-side oracle only
 				}
 			}
-			body := fmt.Sprintf("or %s %s %s %s %s %s", prefix, joinSemi(mapStr(x, rX)), joinSemi(mapStr(a, rA)), eHex(e),
+			for i := range x {
+				if x[i] == nil {
+					return ""
+				}
+			}
+			for i := range a {
+				if a[i] == nil {
+					return ""
+				}
+			}
+			body := fmt.Sprintf("or %s %d %s %s %s %s %s", prefix, n, joinSemi(mapStr(x, rX)), joinSemi(mapStr(a, rA)), eHex(e),
 				joinComma(mapStr(z.E, eHex)), joinSemi(mapStr(z.Z, rZ)))
 			switch op {
-			case "verify", "sim":
+			case "verify", "sim", "zk":
 				return body
 			case "fs":
 				return body + " " + hexBytes(e) + " " + extra
 			}
 			return ""
 		},
+		xVariants: func(x X) []namedX[X] {
+			var out []namedX[X]
+			for i := range x {
+				v := append(X{}, x...)
+				v[i] = x2[(i+1)%n] // a statement of the other instance at another position
+				out = append(out, namedX[X]{"component", v})
+			}
+			v := append(X{}, x...)
+			v[0], v[1] = v[1], v[0]
+			out = append(out, namedX[X]{"order", v})
+			return out
+		},
+	}
+	// the same composition (same name) over n-1 / n+1 branches; the real branch stays inside
+	for _, dn := range []int{-1, 1} {
+		if n+dn < 2 {
+			continue
+		}
+		kind := "fewer"
+		if dn > 0 {
+			kind = "more"
+		}
+		rp, err := sigor.ComposeNamed(proto.Name(), base, uint(n+dn), r)
+		if err != nil {
+			continue
+		}
+		xs := append(X{}, x...)
+		if dn < 0 {
+			if real == n-1 {
+				xs = xs[1:]
+			} else {
+				xs = xs[:n-1]
+			}
+		} else {
+			xs = append(xs, schnorr.NewStatement(g.ScalarOp(rs())))
+		}
+		cs.resized = append(cs.resized, resized[X, sigor.Witness[*schnorr.Witness[S]], A, *sigor.State[*schnorr.State[S], *schnorr.Response[S]], Z]{kind: kind, proto: rp, x: xs, w: w})
 	}
 	c.Count(fmt.Sprintf("or.real-position.%d", real))
 	runSigma(c, r, cs)
+}
+
+// batchLine renders the model lines of batch Schnorr configured for k statements.
+func batchLine[P curves.Point[P, F, S], F algebra.FiniteFieldElement[F], S algebra.PrimeFieldElement[S]](cv string, k int) func(op string, x *batch_schnorr.Statement[P, S], a *batch_schnorr.Commitment[P, S], e []byte, z *batch_schnorr.Response[S], extra string) string {
+	return func(op string, x *batch_schnorr.Statement[P, S], a *batch_schnorr.Commitment[P, S], e []byte, z *batch_schnorr.Response[S], extra string) string {
+		switch op {
+		case "verify", "zk":
+			return fmt.Sprintf("batch %s %d %s %s %s %s %s", cv, k, pointStr(x.Gen), pointsStr(x.Xs), pointStr(a.A), eHex(e), scalarHex(z.Z))
+		case "fs":
+			return fmt.Sprintf("batchfs %s %d %s %s %s %s %s %s", cv, k, pointStr(x.Gen), pointsStr(x.Xs), pointStr(a.A), hexBytes(e), extra, scalarHex(z.Z))
+		case "sim":
+			return fmt.Sprintf("batchsim %s %d %s %s %s %s %s", cv, k, pointStr(x.Gen), pointsStr(x.Xs), eHex(e), pointStr(a.A), scalarHex(z.Z))
+		}
+		return ""
+	}
+}
+
+// mkElcomopStatement builds the elcomop statement (c1, c2); nil if the library refuses the pair.
+func mkElcomopStatement[P curves.Point[P, F, S], F algebra.FiniteFieldElement[F], S algebra.PrimeFieldElement[S]](c1, c2 P) (st *elcomop.Statement[P, S]) {
+	defer func() {
+		if recover() != nil {
+			st = nil
+		}
+	}()
+	ct, err := elgamal.NewCiphertext(c1, c2)
+	if err != nil {
+		return nil
+	}
+	com, err := indcpacom.NewCommitment(ct)
+	if err != nil {
+		return nil
+	}
+	st, err = elcomop.NewStatement(com)
+	if err != nil {
+		return nil
+	}
+	return st
 }
